@@ -14,10 +14,19 @@ open FileAppender
 
 /-- Once `append` has returned, the complete encoded record is on disk behind what was there and
 nothing is left in the buffer — for every chunking the encoder may use (no slice, empty slices,
-1023/1024/1025-byte slices, many slices). -/
+1023/1024/1025-byte slices, many slices; since 9f38f0b the record reaches the BufWriter as one
+slice, `C04_append_visible_unfixed` is the same fact for the slice-by-slice code before it). -/
 theorem C04_append_visible (w : BufFile) (r : Rec) (hq : w.buf = []) :
     (append w r).disk = w.disk ++ encBytes r ∧ (append w r).buf = [] := by
   simp [append_disk, hq]
+
+/-- the same for the code before 9f38f0b, where every slice of the encoder went through the spill
+rule on its own -/
+theorem C04_append_visible_unfixed (w : BufFile) (r : Rec) (hq : w.buf = []) :
+    (encodeUnfixed w r).flush.disk = w.disk ++ encBytes r ∧ (encodeUnfixed w r).flush.buf = [] := by
+  have := BufFile.logical_foldl_writeAll r w
+  simp only [BufFile.logical] at this
+  simp [encodeUnfixed, encBytes, this, hq]
 
 /-- Only the bytes matter: two chunkings of the same record leave the same file. -/
 theorem C04_chunking_irrelevant (w : BufFile) (r₁ r₂ : Rec) (hq : w.buf = [])
@@ -48,34 +57,25 @@ theorem C04_open_modes (c : Bytes) :
 
 
 /-- Several handles and failing encoders. For every history of appends through any number of
-`FileAppender`s on the same path, foreign `O_APPEND` writes between them, further appenders being
-built, restarts, and encoder failures that happen before anything was written: after every single
+`FileAppender`s on the same path, encoders that fail after any number of slices, foreign
+`O_APPEND` writes between them, further appenders being built, and restarts: after every single
 operation the file is the plain concatenation, in call order, of what open left, the whole
 acknowledged records and the foreign appends — nothing acknowledged or foreign is overwritten or
-cut. (The model gives every write the kernel's `O_APPEND` placement; it is claimed faithful for
-several handles in append mode only.) -/
+cut, and a failed append leaves no trace. (The model gives every write the kernel's `O_APPEND`
+placement; it is claimed faithful for several handles in append mode only.) Since the `fix:` commit
+9f38f0b this needs no hypothesis about failing encoders. -/
 theorem C04_multi_trace_eq_spec (m : OpenMode) (pre : Option Bytes) (ops : List MOp)
-    (hv : validOps 1 ops = true) (hnt : ∀ op ∈ ops, op.torn = false) :
+    (hv : validOps 1 ops = true) :
     Handles.trace m (Handles.init m pre) ops = Spec.expectedTraceM m pre ops :=
-  Handles.trace_eq_fileTraceM m ops (Handles.init m pre) (by intro b hb; simpa [Handles.init] using hb) hv hnt
+  Handles.trace_eq_fileTraceM m ops (Handles.init m pre) (by intro b hb; simpa [Handles.init] using hb) hv
 
-/-- the same statement without the restriction on failing encoders … -/
-def C04_multi_trace_statement : Prop :=
-  ∀ (m : OpenMode) (pre : Option Bytes) (ops : List MOp), validOps 1 ops = true →
-    Handles.trace m (Handles.init m pre) ops = Spec.expectedTraceM m pre ops
-
-/-- … is false of the code as it is (finding `C04/seq-encoder-error-torn`): an encoder that fails
-after its first slice leaves that slice in the buffer, and the next record of the appender carries
-it into the file: `[1]` of the failed record `[1][2]` ends up in front of `[3]`. -/
-theorem C04_multi_trace_statement_false : ¬ C04_multi_trace_statement := by
-  intro h
-  have := h .append none [.append 0 [[1], [2]] (some 1), .append 0 [[3]] none] (by decide)
-  revert this
-  decide
-
-/-- what the file is after the witness history: the torn slice glued in front of the next record -/
-theorem C04_encoder_error_tears (m : OpenMode) :
-    Handles.trace m (Handles.init m none) [.append 0 [[1], [2]] (some 1), .append 0 [[3]] none] = [[], [1, 3]] := by
+/-- The former defect (`C04/seq-encoder-error-torn`, repaired by 9f38f0b), as a test on a sample of
+the historical semantics `traceUnfixed`: an encoder that failed after its first slice left that
+slice in the BufWriter, and the appender's next record carried it into the file — `[1]` of the
+failed record `[1][2]` in front of `[3]`. -/
+theorem C04_encoder_error_tears_unfixed (m : OpenMode) :
+    Handles.traceUnfixed m (Handles.init m none) [.append 0 [[1], [2]] (some 1), .append 0 [[3]] none] = [[], [1, 3]] ∧
+    Handles.trace m (Handles.init m none) [.append 0 [[1], [2]] (some 1), .append 0 [[3]] none] = [[], [3]] := by
   cases m <;> decide
 
 /-- Every state any scheduler can reach from the start of `progs` (the per-thread lists of
@@ -124,8 +124,9 @@ theorem C04_schedule_serial (m : OpenMode) (pre : Option Bytes) (progs : List (L
       obtain ⟨q, hq1, hq2⟩ := hbody
       refine ⟨r, q, ?_, hq1⟩
       refine ⟨s.w.buf ++ rest.flatten, ?_⟩
-      rw [← List.append_assoc, hq2, hl.2.2]
-      simp [encBytes]
+      have hfl : encBytes r = (dn ++ rest).flatten := by rw [← hl.2.2]; simp
+      rw [← List.append_assoc, hq2, hfl]
+      simp
     | flushed r =>
       simp only [hpc] at hbody
       exact ⟨r, [], List.nil_prefix, by simp [hbody.2]⟩
@@ -176,7 +177,11 @@ example :
       = [[0, 1], [0, 1], [0, 1, 2], [0, 1, 2, 7, 7], [0, 1, 2, 7, 7, 3], [0, 1, 2, 7, 7, 3, 4]] := by
   decide
 
-/-- every branch of the spill rule is reachable: fill exactly, spill, write-through -/
+/-- every branch of the spill rule is reachable (slice-by-slice code): fill exactly, spill, write-through -/
+example : (encodeUnfixed (build .append (some [1, 2])) [List.replicate 1000 7, List.replicate 24 8, [9]]).flush.disk.length = 1027 := by
+  decide +kernel
+
+/-- a record larger than the buffer is written through in one piece -/
 example : (append (build .append (some [1, 2])) [List.replicate 1000 7, List.replicate 24 8, [9]]).disk.length = 1027 := by
   decide +kernel
 
